@@ -415,6 +415,34 @@ def check_C18(chk):
         ex = [x for x in execs if x[0]['id'] == key]
         chk.violation(f"system entropy source, sequence {key}: {json.dumps(mm.get('expected'))[:200]}",
                       dict(trace_spec='TV_Trng', events=trim(ex[0] if ex else ev, 40), expected=mm.get('expected')))
+    # the source of last resort (no entropy source known): time hash, result 0; application escape hatch
+    none_events = []
+    for hatch in (0, 1):
+        od = os.path.join(chk.wd, f'trng-none-{hatch}')
+        os.makedirs(od, exist_ok=True)
+        write_config_h(od, None)
+        srcs = f"{REPO}/src/random/tinyjambu-trng-none.c {REPO}/src/tinyjambu-hash.c {REPO}/src/backend/tinyjambu-256-c32.c {REPO}/src/backend/tinyjambu-clean.c"
+        rc, out = sh(f"gcc -O2 -w -std=gnu99 -DHAVE_CONFIG_H -DTINYJAMBU_TRNG_SELECT_H -DTINYJAMBU_TRNG_NONE=1 {'-DNONE_WITH_HATCH' if hatch else ''} "
+                     f"-I{REPO}/src -I{od} {VERIF}/harness/nonedrive.c {srcs} -Wl,--wrap=clock_gettime -Wl,--wrap=gettimeofday -Wl,--wrap=time "
+                     f"-o {od}/nonedrive")
+        if rc != 0:
+            chk.log(f"note: the no-entropy-source fallback cannot be built from this tree ({out[-200:]})")
+            continue
+        chk.cov['builds'].append(f"none:{'hatch' if hatch else 'plain'}")
+        lines = [f"none id=none{hatch}-{g}{o}-{t} good={g} ok={o} t={t}" for g in ((0, 1) if hatch else (0,)) for o in ((0, 1) if hatch else (0,)) for t in (1, 2, 77, 123456)]
+        p = subprocess.run([f"{od}/nonedrive"], input='\n'.join(lines) + '\n', stdout=subprocess.PIPE, stderr=subprocess.PIPE, text=True, timeout=120)
+        evs = [json.loads(x) for x in p.stdout.splitlines() if x.startswith('{')]
+        if not evs or evs[-1].get('e') != 'End':
+            evs.append({"e": "Fault", "id": "none", "op": "trng-none", "sig": p.returncode, "buf": "none", "rel": 0})
+        else:
+            evs.pop()
+        none_events += evs
+    if none_events:
+        resn = validate(chk.wd, 'TV_TrngNone', [none_events], shards=1)
+        chk.add_validation('TV_TrngNone', resn, [none_events])
+        for (xi, ev, mm) in resn['mismatches'][:4]:
+            chk.violation(f"entropy source of last resort, {ev.get('id')}: expected {json.dumps(trim(mm.get('expected'), 12))[:200]}",
+                          dict(trace_spec='TV_TrngNone', event=trim(ev, 40), expected=trim(mm.get('expected'), 40)))
     # the PRNG on top of a failing system source: reports 'not seeded' and stays usable
     exe = build_prng_driver(chk)
     groups = []
@@ -434,7 +462,9 @@ def check_C18(chk):
              "liveness under fairness: the call returns); every sequence of the model with up to K transients (plus runs of "
              "17/40/1000 transients, short reads, open failures, several errno values) is injected into the real source file "
              "built as getrandom / getentropy / raw syscall / /dev/urandom variants through link-time interposition, and TLC "
-             "validates each recorded OS-call trace against the machine of TJTrng; the PRNG on top of a failing source is "
+             "validates each recorded OS-call trace against the machine of TJTrng; the source of last resort "
+             "(tinyjambu-trng-none.c, force-selected, scripted clock, application escape hatch on/off) is validated against "
+             "TV_TrngNone (time hash and result 0 unless a good hatch delivers); the PRNG on top of a failing source is "
              "validated against TJDrbg (status 0, usable, zero seed)",
         assumptions=["end-of-file on /dev/urandom (read returning 0) is not in the property's fault alphabet and is not injected",
                      "the variant of a build is recognised from the first OS function it calls"])
